@@ -316,12 +316,14 @@ func (obj *Package) SetIfHas(name string, value Object, private bool) (vv *VarVa
 			} else {
 				vv.Val = value
 			}
-			for _, u := range obj.Users {
-				u.mu.Lock()
-				if _, has := u.vars[name]; !has {
-					u.vars[name] = vv
+			if vv.Export {
+				for _, u := range obj.Users {
+					u.mu.Lock()
+					if _, has := u.vars[name]; !has {
+						u.vars[name] = vv
+					}
+					u.mu.Unlock()
 				}
-				u.mu.Unlock()
 			}
 		}
 	}
